@@ -131,6 +131,20 @@ def run_case(ctx, rng, graph, gkind, i):
         ds[sparse] = batch
     if _amax(ds[True] - ds[False]) > (1e-8 if dtype == np.float64 else 1e-3) * max(1.0, np.abs(ds[False]).max()):
         ctx.fail("sparse_and_dense_distances_differ", cls="GMRFVectorModel", mech=gkind)
+    # a model that keeps learning is still "the" model of everything it has seen: unequal batches, judged by the increment tap
+    if i % 3 == 0:
+        vm = GMRFVectorModel(X.copy(), graph, mode=mode, n_components=trunc, dtype=dtype, sparse=bool(i % 2), bias=bias, incremental=True)
+        seen = X
+        for _k in range(int(rng.integers(1, 4))):
+            more = gmrfmon.make_data(rng, int(rng.integers(1, 9)) + (0 if _k else 3), V, k)
+            vm.increment(more.copy())
+            seen = np.vstack([seen, more])
+            ctx.tap("vector_model_increment", "calls"); ctx.tap("vector_model_increment", "checked")
+            if vm.n_samples != len(seen) or _amax(np.asarray(vm.mean_vector, dtype=float) - seen.mean(0)) > (1e-9 if dtype == np.float64 else 1e-4) * max(1.0, float(np.abs(seen).max())):
+                ctx.fail("model_mean_is_not_the_sample_mean", cls="GMRFVectorModel", mech="after_increment:" + ("sample_count" if vm.n_samples != len(seen) else "mean"))
+            d0 = float(vm.mahalanobis_distance(seen.mean(0)))
+            if not (abs(d0) <= 1e-5 * max(1.0, nrm)):
+                ctx.fail("distance_at_the_mean_is_not_zero", cls="GMRFVectorModel", mech="after_increment", got=d0)
     # the PCA of the model has orthonormal components (only meaningful for a positive definite precision)
     if not iso and trunc is None and dtype == np.float64 and rng.random() < 0.3:
         try:
